@@ -101,6 +101,9 @@ type Sim struct {
 	stopReq  bool
 
 	hash    uint64
+	schedHash uint64
+	exits   int
+	states  map[uint64]struct{}
 	trace   []string
 	Panics  []Panic
 	Stats   Stats
@@ -150,12 +153,24 @@ func New(cfg Config, dec *Decider) *Sim {
 	if cfg.SpinLimit <= 0 {
 		cfg.SpinLimit = 3000
 	}
-	s := &Sim{cfg: cfg, Dec: dec, abort: make(chan struct{}), hash: 14695981039346656037, Ext: map[string]interface{}{}}
+	s := &Sim{cfg: cfg, Dec: dec, abort: make(chan struct{}), hash: 14695981039346656037, schedHash: 14695981039346656037,
+		states: map[uint64]struct{}{}, Ext: map[string]interface{}{}}
 	s.Stats.Probes = map[string]int{}
 	if !curSim.CompareAndSwap(nil, s) {
 		panic("simrt: a simulation is already active in this process")
 	}
 	return s
+}
+
+// SetConfig lets the scenario adjust the run configuration from inside the run (the swarm
+// configuration is drawn from the decision stream by the root task).
+func (s *Sim) SetConfig(f func(c *Config)) {
+	s.mu.Lock()
+	f(&s.cfg)
+	if s.cfg.MaxSteps <= 0 {
+		s.cfg.MaxSteps = 20000
+	}
+	s.mu.Unlock()
 }
 
 // Close detaches the simulation from the process.
@@ -216,6 +231,62 @@ func (s *Sim) logLocked(format string, args ...interface{}) {
 	if s.cfg.Trace {
 		s.trace = append(s.trace, fmt.Sprintf("%9.3fms ", float64(s.now)/1e6)+line)
 	}
+}
+
+// SchedHash is the fingerprint of the schedule alone: the sequence of (task, site) releases and
+// event firings, without payloads.
+func (s *Sim) SchedHash() string { s.mu.Lock(); defer s.mu.Unlock(); return fmt.Sprintf("%016x", s.schedHash) }
+
+// StateHash summarises the set of abstract states seen (see States).
+func (s *Sim) StateHash() string { s.mu.Lock(); defer s.mu.Unlock(); return fmt.Sprintf("%d", len(s.states)) }
+
+// States returns the distinct abstract states sampled at the quiescent points of this run. An
+// abstract state is the multiset of (spawn site, current scheduling site, waiting?) over all
+// live tasks plus the number of pending events (capped).
+func (s *Sim) States() []uint64 {
+	s.mu.Lock()
+	defer s.mu.Unlock()
+	out := make([]uint64, 0, len(s.states))
+	for h := range s.states {
+		out = append(out, h)
+	}
+	sort.Slice(out, func(i, j int) bool { return out[i] < out[j] })
+	return out
+}
+
+func fnvStr(h uint64, str string) uint64 {
+	for i := 0; i < len(str); i++ {
+		h ^= uint64(str[i])
+		h *= 1099511628211
+	}
+	h ^= 0xff
+	h *= 1099511628211
+	return h
+}
+
+// sampleStateLocked records the abstract state at a quiescent point.
+func (s *Sim) sampleStateLocked() {
+	var sum uint64 // order independent combination over tasks
+	for _, t := range s.tasks {
+		if t.state == tsDone {
+			continue
+		}
+		h := fnvStr(14695981039346656037, t.SpawnSite)
+		h = fnvStr(h, t.site)
+		if t.blocked != nil || t.pred != nil {
+			h = fnvStr(h, "w")
+		}
+		if t.inOp {
+			h = fnvStr(h, "o")
+		}
+		sum += h * 0x9e3779b97f4a7c15
+	}
+	n := s.events.Len()
+	if n > 8 {
+		n = 8
+	}
+	sum ^= uint64(n) << 56
+	s.states[sum] = struct{}{}
 }
 
 // Hash is the fingerprint of the event log so far.
@@ -395,7 +466,12 @@ func (s *Sim) spawn(name, site string, lib bool, fn func()) *Task {
 			if s.current == t {
 				s.current = nil
 			}
-			s.logLocked("exit T%d", t.ID)
+			// Several tasks woken by one close() of a channel they were blocked on finish
+			// concurrently: the order of their exit lines is not part of the run's identity.
+			if s.cfg.Trace {
+				s.trace = append(s.trace, fmt.Sprintf("%9.3fms exit T%d", float64(s.now)/1e6, t.ID))
+			}
+			s.exits++
 			s.mu.Unlock()
 		}()
 		if s.cfg.Paranoid {
@@ -650,6 +726,7 @@ func (s *Sim) Run(root func()) {
 			s.mu.Unlock()
 			continue
 		}
+		s.sampleStateLocked()
 		if len(en) > s.Stats.MaxEnabled {
 			s.Stats.MaxEnabled = len(en)
 		}
@@ -669,6 +746,7 @@ func (s *Sim) Run(root func()) {
 			s.current = t
 			s.last = t
 			s.logLocked("run T%d@%s", t.ID, t.site)
+			s.schedHash = fnvStr(fnvStr(s.schedHash, t.SpawnSite), t.site)
 			s.mu.Unlock()
 			t.wake <- struct{}{}
 			continue
@@ -690,6 +768,7 @@ func (s *Sim) Run(root func()) {
 		}
 		heap.Remove(&s.events, e.index)
 		s.logLocked("fire %s", e.desc)
+		s.schedHash = fnvStr(s.schedHash, "fire")
 		s.mu.Unlock()
 		e.fire()
 	}
